@@ -773,6 +773,8 @@ def coq_cases(c, out):
         so = np.linalg.svd(np.asarray(out), compute_uv=False)
         return [("model", grouped(22, [lam], [(0.0, [([float(a)], [float(b)]) for a, b in zip(s, so)])]))]
     if u == "L1MinusL2Norm":
+        if cp:
+            return []          # the Coq case analysis models the real dtype; complex is decided by the oracle
         uu = np.maximum(np.abs(fv) - lam, 0)
         l2u = float(np.linalg.norm(uu))
         return [("model", f"L1L2 {coq_list([qc(c['beta']), qc(lam)])} {qc(l2u)} "
@@ -839,6 +841,165 @@ def run_coq(ctx, items, name="C02_corr"):
     return bad
 
 
+# ------------------------------------------------------------------ designed (always-run) set
+# Independent of VERIF_SEED.  For every unit with a piecewise closed form: (v, lam, parameters)
+# strictly inside each branch of the case analysis of the Coq model, on each branch boundary and
+# just outside.  Every designed case carries "probes" (unit id, params, the quantity the model
+# branches on); C02.Exec.branch_sig evaluates, from the model's own branch conditions, which
+# branch / boundary each probe realises, and REQUIRED_SIGS lists the reachable signatures that
+# the designed set must realise (an obligation of the run), so the set stays in sync with the model.
+
+REQUIRED_SIGS = {
+    0: {(0, 1), (0, 2), (1, 2), (2, 2)},                                   # soft / block soft threshold
+    1: {(0, 0), (1, 0), (2, 0), (2, 1), (2, 2), (0, 1), (0, 2), (1, 2), (1, 1)},   # l0 (code and true thresholds)
+    2: {(0, 1), (0, 2), (1, 2), (2, 2)},                                   # Huber
+    3: {(0, 1), (0, 2), (1, 2), (2, 2)},                                   # l2 ball
+    4: {(0, 1), (0, 2), (1, 2), (2, 2)},                                   # set distance
+    5: {(0, 1), (0, 2), (1, 2), (2, 2)},                                   # singular value threshold
+    6: {(1, 1), (1, 2), (2, 1), (2, 2)},                                   # |v| = 0 / > 0  x  weight = 0 / > 0
+    7: {(1, 1, 0), (1, 2, 0)} | {(2, b, t) for b in (1, 2) for t in (0, 1, 2)},   # al, |v|, al*y vs 1
+    8: {(0, 0, 0, 1), (3, 0, 0, 2), (2, 0, 1, 2), (2, 0, 2, 2), (2, 1, 2, 2), (1, 2, 2, 2), (0, 0, 1, 1)},
+}
+SIG_LEN = {0: 2, 1: 2, 2: 2, 3: 2, 4: 2, 5: 2, 6: 2, 7: 3, 8: 4}
+UNIT_OF_SIG = {0: "L1Norm/L2Norm/L21Norm", 1: "L0Norm", 2: "HuberNorm", 3: "L2BallIndicator", 4: "SetDistance",
+               5: "NuclearNorm", 6: "SquaredL2AbsLoss", 7: "SquaredL2SquaredAbsLoss", 8: "L1MinusL2Norm"}
+
+
+def designed_cases():
+    out = []
+    ph = 0.6 + 0.8j          # unit phase with exactly representable products for multiples of 5/2^k
+
+    def add(unit, lam, v, probes, **params):
+        c = dict({"unit": unit, "lam": lam, "designed": True}, **params)
+        c["v"] = enc(v)
+        out.append((c, probes))
+
+    def vec(m, kind):
+        """vectors of norm exactly m (m a multiple of 5/2^k)"""
+        if kind == "sparse":
+            return np.array([0.0, -m, 0.0])
+        if kind == "dense":
+            return np.array([0.6 * m, -0.8 * m, 0.0])
+        if kind == "cplx":
+            return np.array([0.6j * m, 0.8 * m])
+        return [np.array([0.6 * m]), np.array([0.0, -0.8 * m])]          # block array
+
+    # ---- soft threshold family
+    lam = 1.25
+    ms = [0.0, 0.625, 1.25, 2.5]
+    v = np.array([0.0, 0.625, -1.25, 2.5, -0.625, 1.25, -2.5])
+    add("L1Norm", lam, v, [(0, [lam], [abs(t)]) for t in v])
+    v = np.array([0.0] + [m * ph for m in ms[1:]] + [-1.25j, 1.25])
+    add("L1Norm", lam, v, [(0, [lam], [float(abs(t))]) for t in v])
+    for m in ms:
+        for kind in ("sparse", "dense", "cplx", "block"):
+            add("L2Norm", lam, vec(m, kind), [(0, [lam], [m])])
+    cols = np.array([[0.6 * m for m in ms], [-0.8 * m for m in ms]])
+    add("L21Norm", lam, cols, [(0, [lam], [m]) for m in ms], l2_axis=0)
+    add("L21Norm", lam, cols.T.copy(), [(0, [lam], [m]) for m in ms], l2_axis=1)
+    add("L21Norm", lam, cols * 1j, [(0, [lam], [m]) for m in ms], l2_axis=0)
+    for m in ms:
+        add("L21Norm", lam, np.array([[0.6 * m, 0.0], [0.0, -0.8 * m]]), [(0, [lam], [m])], l2_axis=None)
+        add("L21Norm", lam, np.array([[0.6 * m, 0.0], [0.0, -0.8 * m]]), [(0, [lam], [m])], l2_axis=[0, 1])
+    add("L21Norm", lam, [vec(m, "dense") for m in ms], [(0, [lam], [m]) for m in ms], l2_axis=None)
+    # ---- l0: both the code's threshold (lam) and the true one (sqrt(2 lam))
+    for lam0, mags in ((0.5, [0.25, 0.5, 0.75, 1.0, 2.0]), (8.0, [2.0, 4.0, 5.0, 8.0, 9.0]), (2.0, [1.0, 2.0, 3.0])):
+        v = np.array([(-1) ** i * m for i, m in enumerate(mags)] + [0.0])
+        add("L0Norm", lam0, v, [(1, [lam0], [abs(t)]) for t in v])
+    mags = [0.625, 1.25, 1.5625, 2.5]
+    add("L0Norm", 1.25, np.array([m * ph for m in mags]), [(1, [1.25], [m]) for m in mags])
+    # ---- Huber
+    for delta, lamh in ((0.5, 1.5), (2.5, 1.0)):
+        thr = delta * (1 + lamh)
+        aa = [0.0, thr / 2, thr, 2 * thr]
+        v = np.array([0.0, thr / 2, -thr, 2 * thr, -thr / 2])
+        add("HuberNorm", lamh, v, [(2, [delta, lamh], [abs(t)]) for t in v], delta=delta, separable=True)
+        v = np.array([a * ph for a in aa])
+        add("HuberNorm", lamh, v, [(2, [delta, lamh], [a]) for a in aa], delta=delta, separable=True)
+        for a in aa:
+            for kind in ("sparse", "dense", "cplx"):
+                add("HuberNorm", lamh, vec(a, kind), [(2, [delta, lamh], [a])], delta=delta, separable=False)
+    # ---- l2 ball, incl. BlockArray arguments
+    for r in (1.25, 5.0):
+        for m in (0.0, r / 2, r, 2 * r):
+            for kind in ("sparse", "dense", "cplx", "block"):
+                add("L2BallIndicator", 1.0, vec(m, kind), [(3, [r], [m])], radius=r)
+    # ---- set distances: d = 0, < lam, = lam, > lam
+    lam = 1.25
+    for d in (0.0, 0.625, 1.25, 2.5):
+        for unit in ("SetDistance", "SquaredSetDistance"):
+            pr = [(4, [lam], [d])] if unit == "SetDistance" else []
+            add(unit, lam, np.array([0.5, -d, 1.0]) if d else np.array([0.5, 0.0, 1.0]), pr, proj="nonneg", args=[])
+            add(unit, lam, np.array([0.0, 0.5 + d]), pr, proj="box", args=[-1.0, 0.5])
+            add(unit, lam, np.array([0.75 + 0.6 * d, 0.75 - 0.8 * d]), pr, proj="point", args=[0.75])
+            add(unit, lam, np.array([0.75 + d * ph, 0.75 + 0j]), pr, proj="point", args=[0.75])
+            add(unit, lam, np.array([1.0, 0.6 * d, -0.8 * d]), pr, proj="coordsub", args=[1])
+    # ---- singular value thresholding
+    lam = 1.0
+    for S in ([2.0, 1.0, 0.5], [1.0, 0.0], [0.5, 0.5]):
+        add("NuclearNorm", lam, np.diag(S), [(5, [lam], [t]) for t in S])
+    add("NuclearNorm", lam, np.array([[2.0, 0.0, 0.0], [0.0, 0.5, 0.0]]), [(5, [lam], [2.0]), (5, [lam], [0.5])])
+    add("NuclearNorm", lam, 1j * np.diag([2.0, 1.0]), [(5, [lam], [2.0]), (5, [lam], [1.0])])
+    Q = np.array([[0.6, 0.8], [-0.8, 0.6]])
+    add("NuclearNorm", lam, Q @ np.diag([2.5, 0.625]) @ Q.T, [])
+    add("NuclearNorm", lam, np.zeros((2, 2)), [(5, [lam], [0.0])])
+    # ---- phase-retrieval losses: zero entries, zero weights, al*y <, =, > 1
+    sc, lam = 0.5, 1.0
+    vr = np.array([0.0, 0.0, 1.5, -2.0])
+    w = np.array([0.0, 0.5, 0.0, 0.5])
+    y = np.array([1.0, 1.0, 0.5, 2.0])
+    for vv in (vr, np.array([0.0, 0.0, 0.75 + 1.0j, -3.0 + 4.0j])):
+        add("SquaredL2AbsLoss", lam, vv, [(6, [], [float(abs(t)), float(ww)]) for t, ww in zip(vv, w)],
+            scale=sc, y=enc(y), w=enc(w))
+    add("SquaredL2AbsLoss", lam, vr, [], scale=sc, y=enc(y))
+    ws = [0.0, 0.0, 0.5, 0.5, 0.5, 0.5, 0.5, 0.5]
+    ys = [1.0, 1.0, 0.5, 1.0, 4.0, 0.5, 1.0, 4.0]
+    for bs in ([0.0, -1.25, 0.0, 0.0, 0.0, 1.25, -1.25, 1.25],
+               [0.0, 0.75 + 1.0j, 0.0, 0.0, 0.0, 0.75 - 1.0j, 1.25j, -0.75 + 1.0j]):
+        vv = np.array(bs)
+        add("SquaredL2SquaredAbsLoss", lam, vv,
+            [(7, [sc, lam], [ww, float(abs(t)), yy]) for t, ww, yy in zip(vv, ws, ys)],
+            scale=sc, y=enc(np.array(ys)), w=enc(np.array(ws)))
+    # ---- L1MinusL2Norm: max|v| in the three windows and on their boundaries, beta != 1 and beta = 1
+    lam = 2.5
+    for beta in (0.25, 0.5, 0.75, 1.0):
+        lo = (1 - beta) * lam
+        wins = sorted({0.0, lo / 2, lo, (lo + lam) / 2, lam, 2 * lam})
+        for m in wins:
+            pr = [(8, [beta, lam], [m])]
+            if m == 0:
+                add("L1MinusL2Norm", lam, np.zeros(3), pr, beta=beta)
+                continue
+            add("L1MinusL2Norm", lam, np.array([0.0, -m, 0.0]), pr, beta=beta)                 # one-sparse
+            add("L1MinusL2Norm", lam, np.array([m, -m / 2, m / 4]), pr, beta=beta)             # dense
+            add("L1MinusL2Norm", lam, np.array([[m / 2, m], [-m, 0.0]]), pr, beta=beta)        # tie in argmax
+            if beta in (0.5, 0.25):
+                add("L1MinusL2Norm", lam, np.array([m * ph, m / 2, 0.0]), pr, beta=beta)       # complex dense
+                add("L1MinusL2Norm", lam, np.array([0.0, -m * ph]), pr, beta=beta)             # complex one-sparse
+    return out
+
+
+def run_probes(ctx, probes):
+    """evaluate the branch signatures inside Coq and check that every reachable one is realised"""
+    txt = coq_list([f"({u}%nat, {coq_list([qc(t) for t in ps])}, {coq_list([qc(t) for t in xs])})"
+                    for u, ps, xs in probes], ";\n ")
+    body = f"Definition probes : list probe := {txt}.\nEval vm_compute in (map probe_sig probes)."
+    sigs = parse_eval_nat_list(coq_eval_shards("C02_probes", HEADER, [body])[0])
+    if len(sigs) != len(probes):
+        raise Broken("branch signatures: wrong number of results")
+    seen = {}
+    for (u, _, _), sg in zip(probes, sigs):
+        ds = []
+        for _ in range(SIG_LEN[u]):
+            ds.append(sg % 4)
+            sg //= 4
+        seen.setdefault(u, set()).add(tuple(reversed(ds)))
+    for u, req in REQUIRED_SIGS.items():
+        missing = req - seen.get(u, set())
+        ctx.obligation(not missing, f"designed set realises every branch / boundary of the {UNIT_OF_SIG[u]} model",
+                       f"missing signatures {sorted(missing)}; seen {sorted(seen.get(u, set()))}")
+
+
 def run(ctx: Ctx):
     if not getattr(ctx, "no_proofs", False):
         ctx.proofs()
@@ -857,9 +1018,19 @@ def run(ctx: Ctx):
                         "where a division or square root occurs, exact comparison otherwise",
                         "NuclearNorm: matrix-level optimality not proved (spectrum-level only); L1MinusL2Norm: proved "
                         "in one dimension only; both are covered by the objective oracle"]
-    rng = ctx.rng
-    per_unit = ctx.n(18, 400)
     items = []
+    # designed set first: independent of VERIF_SEED (its own fixed PRNG for the oracle's perturbations)
+    import random as _random
+    drng = _random.Random(20260930)
+    probes = []
+    for c, pr in designed_cases():
+        ctx.count("designed-" + c["unit"], c, nontrivial=bool(np.any(flat(dec(c["v"])) != 0)))
+        check_case(ctx, c, drng, items)
+        probes += pr
+    run_probes(ctx, probes)
+    ctx.notes.append(f"{len(items)} comparisons from the designed (seed-independent) set, {len(probes)} branch probes")
+    rng = ctx.rng
+    per_unit = ctx.n(13, 400)
     for unit in UNITS:
         for _ in range(per_unit):
             c = gen_case(rng, unit)
@@ -881,7 +1052,7 @@ def run(ctx: Ctx):
 
 
 def replay(ctx: Ctx, rec):
-    c = {k: v for k, v in rec["input"].items() if k not in ("ratios", "norm_v", "norm_v2")}
+    c = {k: v for k, v in rec["input"].items() if k not in ("ratios", "norm_v", "norm_v2", "designed")}
     import random
     rng = random.Random(0)
     try:
